@@ -117,12 +117,27 @@ def register(prop):
          "ping / TCP ping afterwards; non-trivial = >=1 input injected; distinct = distinct (mode, genuine message, configuration) tuples",
          assumptions=["'does not decode' is decided by a harness-side decoder built from the library's own codec functions under the receiver's configuration"])
 
+    prop("C09", [dict(scn="C09J", quick=300, thorough=30000, wall_quick=100, wall_thorough=1500), dict(scn="C09P", quick=500, thorough=40000, wall_quick=150, wall_thorough=2400)],
+         "C09J (cluster, fault-free fragmenting/delayed streams, gossip flowing, all yield sites): a fresh node joins 1-2 hosts of a live 1-6 node cluster; at the instant Join returns the "
+         "joiner lists each host and every member the host reported alive (unchanged during the join); with deliveries held and zero virtual time passing, the hosts' handlers finish and "
+         "each host lists the joiner. C09P (two real nodes with generated tables of 0-60 entries in all four states, duplicates, self-referential entries; encryption 0/16/32 x compression "
+         "x label x join/anti-entropy x user state): the exchange is cut (EOF or reset) after EVERY byte offset of the request and of the reply (complete for streams <= 500 bytes, 160 "
+         "boundary-biased offsets otherwise) - the side whose inbound data was incomplete keeps a bit-identical full digest (records, events, queued broadcasts, MergeRemoteState calls) and "
+         "the initiator reports failure; merge-delegate veto on either side (join only); generated version 6-tuples with an independent compatibility rule (soundness direction); hearsay: "
+         "remote dead/suspect about a locally alive member only starts suspicion and the member stays listed until S_min, remote left removes directly; "
+         "non-trivial = a verdict was reached; " + FP,
+         extra={"stream_cut_enumeration": "complete per byte offset for streams <= 500 bytes"})
+
 NOT_CLAIMED = {}
 
 SIM_NOTE = ("trusted base: Go runtime + testing/synctest fake clock, the harness (scheduler, SimNet, oracles) under /verif/sim; "
             "assumes the guarded yield sites are the relevant preemption points; seeded search, not proof")
 
 META = {
+ "C09": dict(
+    level_text="Crash-point enumeration of both directions of real push/pull streams between two real nodes (every byte offset for short streams) with full-digest equality on the side whose inbound data was incomplete, plus seeded joins into live clusters with the mutuality oracle evaluated at the exact virtual instant Join returns while deliveries are held.",
+    design_ref="DESIGN.md §3 C09", level_note=SIM_NOTE,
+    technique="deterministic simulation: exhaustive stream cut points on real push/pull exchanges (fault enumeration) + seeded live-cluster joins with held deliveries"),
  "C13": dict(
     level_text="Fault enumeration plus seeded search: complete truncation/cut/stall enumeration over captured genuine packets and streams, grammar-aware and random hostile inputs, against a real node in virtual time so that TCPTimeout-bounded clean-up and goroutine/connection leaks are observable; a panic anywhere in library code kills the worker and is attributed to its seed.",
     design_ref="DESIGN.md §3 C13", level_note=SIM_NOTE,
